@@ -10,10 +10,12 @@ import (
 	"context"
 	"errors"
 	"fmt"
+	"reflect"
 	"runtime"
 	"sort"
 	"sync"
 	"time"
+	"unsafe"
 
 	"k8s.io/apimachinery/pkg/labels"
 	"k8s.io/client-go/tools/cache"
@@ -154,6 +156,59 @@ func (g *VerifC18Rig) VerifC18Handle(name string) error {
 	return g.r.UpstreamConditionHandler(c)
 }
 
+// verifC18Redate writes one entry of the heartbeat table with a time of the harness's choosing (the code has no clock
+// to inject). The table is found by ROLE, not by name: the one field of ClientCache that is a shared table from
+// instance to time - a sync.Map, or a map[string]time.Time guarded by whatever sync.Mutex / sync.RWMutex fields sit
+// beside it (values or pointers). Reading always goes through the package's own AllClients().
+func verifC18Redate(c *ClientCache, instance string, t time.Time) error {
+	v := reflect.ValueOf(c).Elem()
+	var lockers []sync.Locker
+	var sm *sync.Map
+	var mp *map[string]time.Time
+	for i := 0; i < v.NumField(); i++ {
+		f := v.Field(i)
+		p := unsafe.Pointer(f.UnsafeAddr())
+		switch f.Type() {
+		case reflect.TypeOf(sync.Map{}):
+			sm = (*sync.Map)(p)
+		case reflect.TypeOf(&sync.Map{}):
+			sm = *(**sync.Map)(p)
+		case reflect.TypeOf(map[string]time.Time{}):
+			mp = (*map[string]time.Time)(p)
+		case reflect.TypeOf(sync.RWMutex{}):
+			lockers = append(lockers, (*sync.RWMutex)(p))
+		case reflect.TypeOf(&sync.RWMutex{}):
+			lockers = append(lockers, *(**sync.RWMutex)(p))
+		case reflect.TypeOf(sync.Mutex{}):
+			lockers = append(lockers, (*sync.Mutex)(p))
+		case reflect.TypeOf(&sync.Mutex{}):
+			lockers = append(lockers, *(**sync.Mutex)(p))
+		}
+	}
+	switch {
+	case sm != nil && mp == nil:
+		sm.Store(instance, t)
+	case mp != nil && sm == nil:
+		for _, l := range lockers {
+			l.Lock()
+		}
+		if *mp == nil {
+			*mp = map[string]time.Time{}
+		}
+		(*mp)[instance] = t
+		for i := len(lockers) - 1; i >= 0; i-- {
+			lockers[i].Unlock()
+		}
+	default:
+		return fmt.Errorf("verif: ClientCache no longer holds one table from instance to time (sync.Map or map[string]time.Time)")
+	}
+	// the package's own reader must see it
+	if all, _ := c.AllClients(); !all[instance].Equal(t) {
+		return fmt.Errorf("verif: an entry written to ClientCache's table is not what AllClients() answers")
+	}
+	return nil
+}
+
 // VerifC18Heartbeat calls the real Heartbeat, checks that it recorded the wall clock, then re-dates the entry to the
 // scripted time tMs (milliseconds on the rig's own time axis).
 func (g *VerifC18Rig) VerifC18Heartbeat(instance string, tMs int64) error {
@@ -162,16 +217,15 @@ func (g *VerifC18Rig) VerifC18Heartbeat(instance string, tMs int64) error {
 		return err
 	}
 	after := time.Now()
-	v, ok := g.r.clientCache.clientHeartbeats.Load(instance)
+	all, _ := g.r.clientCache.AllClients()
+	t, ok := all[instance]
 	if !ok {
 		return fmt.Errorf("Heartbeat(%q) recorded nothing", instance)
 	}
-	t := v.(time.Time)
 	if t.Before(before.Add(-time.Millisecond)) || t.After(after.Add(time.Millisecond)) {
 		return fmt.Errorf("Heartbeat(%q) recorded %v, not the current time", instance, t)
 	}
-	g.r.clientCache.clientHeartbeats.Store(instance, g.base.Add(time.Duration(tMs)*time.Millisecond))
-	return nil
+	return verifC18Redate(g.r.clientCache, instance, g.base.Add(time.Duration(tMs)*time.Millisecond))
 }
 
 // VerifC18RedateFresh: after a heartbeat that came in through the HTTP endpoint. Every entry of the table that carries
@@ -184,7 +238,7 @@ func (g *VerifC18Rig) VerifC18RedateFresh(before, after time.Time, tMs int64) []
 	for c, t := range clients {
 		if !t.Before(before.Add(-time.Millisecond)) && !t.After(after.Add(time.Millisecond)) {
 			keys = append(keys, c)
-			g.r.clientCache.clientHeartbeats.Store(c, g.base.Add(time.Duration(tMs)*time.Millisecond))
+			verifC18Redate(g.r.clientCache, c, g.base.Add(time.Duration(tMs)*time.Millisecond))
 		}
 	}
 	sort.Strings(keys)
@@ -221,7 +275,9 @@ func (g *VerifC18Rig) VerifC18CleanupTimeout(nowMs int64, slackMs int64) error {
 		if age <= timeoutMs && age > timeoutMs-slackMs {
 			age -= slackMs
 		}
-		g.r.clientCache.clientHeartbeats.Store(c, wall.Add(-time.Duration(age)*time.Millisecond))
+		if err := verifC18Redate(g.r.clientCache, c, wall.Add(-time.Duration(age)*time.Millisecond)); err != nil {
+			return err
+		}
 	}
 	g.r.cleanupTimeoutClient()
 	slow := time.Since(wall) >= time.Duration(slackMs)*time.Millisecond/2
@@ -235,7 +291,7 @@ func (g *VerifC18Rig) VerifC18CleanupTimeout(nowMs int64, slackMs int64) error {
 	left, _ := g.r.clientCache.AllClients()
 	for c := range left {
 		if t, ok := orig[c]; ok {
-			g.r.clientCache.clientHeartbeats.Store(c, t)
+			verifC18Redate(g.r.clientCache, c, t)
 		}
 	}
 	if slow {
